@@ -27,7 +27,7 @@ import (
 )
 
 var st = stat.New("C20",
-	"Trial = {schedule class free | forced | inflight | overflow; 1..8 logging goroutines each logging 1..50 numbered entries through two loggers with separate recording writers; 0..1000 entries of pre-occupancy; process-wide log level DEBUG..ERROR with every entry logged through a call that passes it - levelled calls only, or (a third of the trials) levelled calls at the trial's level, WARN and ERROR mixed with the raw calls WriteLog and Trace that ignore the level; in a quarter of the trials the level is raised to ERROR after the last logging call returned and before the flush is requested; forced: the flusher is parked at the yield hook between its two polls, the last 1..20 entries of one goroutine are logged, the flush is requested (observed through an accessor), the flusher is released; inflight: a writer taking 40 ms per Write, flush requested while the last entry is off the queue but not yet written; overflow: 10001..10300 entries from one goroutine while the writer stalls for 250 ms}. Oracle over the recording writers after FlushLogger returned: every entry whose logging call returned before the flush request is present exactly once on the writer of its logger (and never on the other), entries of one goroutine appear in logging order, every Write call carries exactly one formatted entry (one line, one token), FlushLogger returns only after the flusher acknowledged (or the timeout passed) and within the 1 s flush timeout + slack. Non-trivial = forced trial, overflow trial, or >= 3 goroutines logging. Distinct = distinct trial JSON.",
+	"Trial = {schedule class free | forced | inflight | overflow; 1..8 logging goroutines each logging 1..50 numbered entries through two loggers with separate recording writers; 0..1000 entries of pre-occupancy; process-wide log level DEBUG..ERROR with every entry logged through a call that passes it - levelled calls only, or (a third of the trials) levelled calls at the trial's level, WARN and ERROR mixed with the raw calls WriteLog and Trace that ignore the level; in a quarter of the trials the level is raised to ERROR after the last logging call returned and before the flush is requested; forced: the flusher is parked at the yield hook between its two polls, the last 1..20 entries of one goroutine are logged, the flush is requested (observed through an accessor), the flusher is released; inflight: a writer taking 40 ms per Write, flush requested while the last entry is off the queue but not yet written; overflow: 10001..10300 entries from one goroutine while the writer stalls for 250 ms; late: both writers stall 150 ms on their first entry, 1..3 goroutines log 2..12 entries each, the flush is requested and - once the request is observed - every goroutine logs 1..3 further entries (these need not be written when the flush returns, but must not overtake the goroutine's earlier entries)}. Oracle over the recording writers after FlushLogger returned: every entry whose logging call returned before the flush request is present exactly once on the writer of its logger (and never on the other), entries of one goroutine appear in logging order, every Write call carries exactly one formatted entry (one line, one token), FlushLogger returns only after the flusher acknowledged (or the timeout passed) and within the 1 s flush timeout + slack. Non-trivial = forced trial, overflow trial, or >= 3 goroutines logging. Distinct = distinct trial JSON.",
 	"the losing interleaving is a window of a few nanoseconds without the hook; the hook (build tag verif, committed to the repository) makes it deterministic, the select between the two ready cases remains random (p = 1/2 per trial)",
 	"logger state is reset between trials through an overlay accessor that restarts the background flusher")
 
@@ -51,6 +51,10 @@ type Trial struct {
 	// RaiseLevel: once every logging call has returned, and before the flush is requested,
 	// the process-wide level is raised to ERROR (as the admin command setloglevel does)
 	RaiseLevel bool `json:"raise_level,omitempty"`
+	// Late (class late): entries every goroutine logs after the flush has been requested,
+	// while the writer is still stalled on the first entry. They need not be written by the
+	// time the flush returns, but must not overtake the goroutine's earlier entries.
+	Late int `json:"late,omitempty"`
 }
 
 // emit logs entry i of goroutine g through the call the trial prescribes for it.
@@ -144,7 +148,7 @@ func installHook() {
 }
 
 func draw(rt *rapid.T) Trial {
-	t := Trial{Class: rapid.SampledFrom([]string{"free", "free", "free", "free", "free", "free", "free", "free", "free", "forced", "forced", "forced", "forced", "forced", "forced", "forced", "forced", "forced", "forced", "forced", "forced", "forced", "forced", "forced", "inflight", "inflight", "inflight", "overflow"}).Draw(rt, "class")}
+	t := Trial{Class: rapid.SampledFrom([]string{"free", "free", "free", "free", "free", "free", "free", "free", "free", "forced", "forced", "forced", "forced", "forced", "forced", "forced", "forced", "forced", "forced", "forced", "forced", "forced", "forced", "forced", "inflight", "inflight", "inflight", "overflow", "late", "late", "late"}).Draw(rt, "class")}
 	t.Goroutines = rapid.IntRange(1, 8).Draw(rt, "goroutines")
 	t.JSON = rapid.IntRange(0, 3).Draw(rt, "jsonFormat") == 0
 	t.Level = rapid.SampledFrom([]int{0, 0, 0, 1, 2, 3}).Draw(rt, "level")
@@ -154,6 +158,14 @@ func draw(rt *rapid.T) Trial {
 		t.Goroutines = 1
 		t.Extra = rapid.IntRange(1, 300).Draw(rt, "extra")
 		t.Entries = []int{10000 + t.Extra}
+		return t
+	}
+	if t.Class == "late" {
+		t.Goroutines = rapid.IntRange(1, 3).Draw(rt, "lateGoroutines")
+		for i := 0; i < t.Goroutines; i++ {
+			t.Entries = append(t.Entries, rapid.IntRange(2, 12).Draw(rt, "entries"))
+		}
+		t.Late = rapid.IntRange(1, 3).Draw(rt, "late")
 		return t
 	}
 	if t.Class == "inflight" {
@@ -180,6 +192,9 @@ func run(t Trial) *stat.Failure {
 	w1, w2 := &recWriter{}, &recWriter{}
 	if t.Class == "overflow" {
 		w1.stall = 250 * time.Millisecond
+	}
+	if t.Class == "late" {
+		w1.stall, w2.stall = 150*time.Millisecond, 150*time.Millisecond
 	}
 	if t.Class == "inflight" {
 		w1.slow = 40 * time.Millisecond
@@ -285,6 +300,26 @@ func run(t Trial) *stat.Failure {
 		atomic.StoreInt32(&armed, 0)
 		release <- struct{}{}
 	}
+	if t.Class == "late" {
+		// the flush has been requested and the writers are still stalled on their first entry:
+		// every goroutine logs a few more entries
+		<-rogger.VerifFlushRequested()
+		var lw sync.WaitGroup
+		for g := 0; g < t.Goroutines; g++ {
+			lw.Add(1)
+			go func(g int) {
+				defer lw.Done()
+				lg := l1
+				if g%2 == 1 {
+					lg = l2
+				}
+				for k := 0; k < t.Late; k++ {
+					t.emit(lg, g, t.Entries[g]+k, token(no, g, t.Entries[g]+k))
+				}
+			}(g)
+		}
+		lw.Wait()
+	}
 	select {
 	case <-flushed:
 	case <-time.After(10 * time.Second):
@@ -337,7 +372,11 @@ func run(t Trial) *stat.Failure {
 				var seq []string
 				for _, bb := range w.snapshot() {
 					if kk := strings.Index(string(bb), fmt.Sprintf("T%d-G%d-", no, g)); kk >= 0 {
-						seq = append(seq, string(bb)[kk:kk+16])
+						e := kk + 16
+						if e > len(bb) {
+							e = len(bb)
+						}
+						seq = append(seq, strings.TrimSpace(string(bb)[kk:e]))
 					}
 				}
 				buf := make([]byte, 1<<20)
